@@ -318,7 +318,7 @@ func TestVerif_C07_node(t *testing.T) {
 	defer r.Write()
 	maxLen := verifmc.Pick(2, 3)
 	fullLimit := verifmc.Pick(160, 1200)
-	r.Rule = fmt.Sprintf("round trip: every shape of {leaf,branch} x value {none,empty,1,32,33 inline,33 hashed,64,16384 bytes} x partial key length at every header boundary of the variant (0,1,2, max-1..max+1, max+254..max+256, max+509..max+511, last multiple, 65534, 65535 for max=63/31/15; plus 62..65,317..319,573) x 10 child configurations (inline leaf / hashed / inline branch, 1, 2 or 16 children) is built, encoded with Node.Encode, decoded with Decode and compared field by field with its description; robustness: every byte string of length <= %d, for every valid encoding of <= %d bytes (quick: and a partial key of <= 2 nibbles) every single-byte substitution (255 values x every position), every truncation and 3 appended bytes, for the other encodings the same at every structural offset (header, key ends, bitmap, length prefixes, field starts; quick: the first 9 of them and the last byte), (inputs declaring a byte-string length above 64 KiB are executed serially, up to 64 MiB, for 21 designated pk=1 shapes and counted as skipped otherwise), every valid encoding through a one-byte-per-Read reader, the designated shapes through a reader that splits at every offset (thorough: also every other shape at every structural offset; encodings <= %d bytes). Non-trivial = the decoder returned a node or got past the header", maxLen, fullLimit, fullLimit)
+	r.Rule = fmt.Sprintf("round trip: every shape of {leaf,branch} x value {none,empty,1,32,33 inline,33 hashed,64,16384 bytes} x partial key length at every header boundary of the variant (0,1,2, max-1..max+1, max+254..max+256, max+509..max+511, last multiple, 65534, 65535 for max=63/31/15; plus 62..65,317..319,573) x 10 child configurations (inline leaf / hashed / inline branch, 1, 2 or 16 children) is built, encoded with Node.Encode, decoded with Decode and compared field by field with its description; robustness: every byte string of length <= %d, for every valid encoding of <= %d bytes (quick: and a partial key of <= 2 nibbles) every single-byte substitution (255 values x every position), every truncation and 3 appended bytes, for the other encodings the same at every structural offset (header, key ends, bitmap, length prefixes, field starts; quick: the first 9 of them and the last byte), (inputs declaring a byte-string length above 64 KiB are executed serially, up to 8 MiB, for the designated pk=1 shapes (quick 7, thorough 21) and counted as skipped otherwise), every valid encoding through a one-byte-per-Read reader, the designated shapes through a reader that splits at every offset (thorough: also every other shape at every structural offset; encodings <= %d bytes). Non-trivial = the decoder returned a node or got past the header", maxLen, fullLimit, fullLimit)
 	mon := c07NewMonitor(r, 300*time.Second)
 	defer close(mon.stop)
 
@@ -433,9 +433,9 @@ func TestVerif_C07_node(t *testing.T) {
 	// Inputs that declare a SCALE byte-string length above 64 KiB make the SCALE decoder allocate
 	// that much (up to 1 GiB for a 30-byte input - C12's subject, not a panic or a hang).  They are
 	// recognised by an independent structural walk (ref.C07MaxDeclaredLen); those declaring up to
-	// 64 MiB are executed one at a time for the designated shapes; the others are counted as skipped
+	// 8 MiB are executed one at a time for the designated shapes; the others are counted as skipped
 	// (a stated restriction of the executed space, not a sample).
-	const heavyFrom, heavyTo = 64 << 10, 64 << 20
+	const heavyFrom, heavyTo = 64 << 10, 8 << 20
 	var heavyMu sync.Mutex
 	readerSem := make(chan struct{}, 2)
 	verifmc.ParallelFor(r, len(shapes), func(i int) {
@@ -573,14 +573,20 @@ func TestVerif_C07_node(t *testing.T) {
 	r.Extra["shapes"] = len(shapes)
 }
 
-// c07HeavyDesignated: the 21 shapes (partial key of one nibble: 6 leaves, 3 x 5 branches) whose
-// allocation-heavy deviations (up to 64 MiB) and whose reader splits at every offset are executed.
+// c07HeavyDesignated: the shapes (partial key of one nibble; thorough: 6 leaves, 3 x 5 branches;
+// quick: 2 leaves, 5 branches without value) whose allocation-heavy deviations (up to 8 MiB) and whose reader splits at every offset are executed.
 func c07HeavyDesignated(name string) bool {
 	if !strings.Contains(name, " pk=1 ") {
 		return false
 	}
 	if !strings.HasPrefix(name, "branch") {
+		if !verifmc.Thorough() {
+			return strings.Contains(name, "v=01") || strings.Contains(name, "v=33hashed")
+		}
 		return !strings.Contains(name, "16384")
+	}
+	if !verifmc.Thorough() && !strings.Contains(name, "v=none") {
+		return false
 	}
 	if !(strings.Contains(name, "v=none") || strings.Contains(name, "v=01") || strings.Contains(name, "v=33hashed")) {
 		return false
